@@ -550,6 +550,20 @@ def run(ctx):
     for c in (codec.presence_grid_cases(ctx, every=6 if ctx.tier == 'quick' else 1) + codec.empty_member_grid_cases(ctx, every=2 if ctx.tier == 'quick' else 1)
               + codec.tag_grid_cases(ctx, every=3 if ctx.tier == 'quick' else 1)):
         work.append((c.T, c.cty, c.v, 'grid'))
+    # DEFAULT components whose default value has more than one representation: a REAL held in base 2 (or base 10)
+    # against the equal Python float, equal and different values, SEQUENCE and SET, plain and tagged: the Python-value
+    # branch must leave out exactly what the value-object branch leaves out (round 7: DEFAULT test by encoding)
+    for kind in ('seq', 'set'):
+        for dflt in ((1, 2, -1), (3, 2, -2), (5, 2, 3), (5, 10, -1), (25, 10, -2), (0, 10, 0)):
+            for val in (dflt, (1, 2, -1), (75, 10, -2), (40, 2, 0)):
+                for tg in (lambda t: t, lambda t: ('exp', (128, 0, 2), t)):
+                    T = (kind, [(('def', ('real', dflt)), tg(('real',))), ('req', ('int',))])
+                    for rv in (('real', val), None):
+                        try:
+                            work.append((T, U.coq_ty(T), ('rec', [rv, ('i', 4)]), 'real-default'))
+                            ctx.stats['real-default cases'] += 1
+                        except Exception:
+                            ctx.stats['real-default-unbuildable'] += 1
     for T, cty, v, how in work:
         has_any = 'any' in gen.features(T)
         has_real = 'real' in gen.features(T)
